@@ -55,6 +55,47 @@ fn state_code(s: St, cur: u32) -> u32 {
     }
 }
 
+/// A timelock whose minimum delay was never set: nothing can be scheduled (there is no minimum to meet),
+/// nothing exists, nothing can be executed; once a minimum (also 0) is set it works.
+fn never_initialised(cfg: &Cfg, rep: &mut Report) {
+    let h = 60_000u64;
+    if cfg.shard != 2 % cfg.nshards || !cfg.runs(h) {
+        return;
+    }
+    rep.begin_history(h);
+    let w = World::new(50, 16);
+    let e = &w.env;
+    e.mock_all_auths();
+    let c = e.register(TlWrap, (None::<u32>,));
+    let target = e.register(CountTarget, ());
+    let zero = BytesN::from_array(e, &[0u8; 32]);
+    for first in [0u32, 7] {
+        for delay in [0u32, 1, 5, u32::MAX] {
+            let a = args!(e, target, Symbol::new(e, "bump"), args!(e, 1u32), zero.clone(), BytesN::from_array(e, &[delay as u8; 32]), delay);
+            let got: Result<BytesN<32>, Fail> = invoke(e, &c, "schedule", a);
+            rep.evaluations += 1;
+            rep.case(format!("never-initialised/schedule/delay={}/{}", delay.min(6), tag(&got)));
+            rep.check("sched", got.is_err(), "C08/sched/schedule/accepted-without-a-minimum-delay-in-force", || format!("schedule with delay {delay} on a timelock whose minimum delay was never set: {got:?}"));
+        }
+        let x: Result<Val, Fail> = invoke(e, &c, "execute", args!(e, target, Symbol::new(e, "bump"), args!(e, 1u32), zero.clone(), BytesN::from_array(e, &[0u8; 32])));
+        rep.check("exec", x.is_err(), "C08/exec/execute/never-scheduled", || format!("execute on a never-initialised timelock: {x:?}"));
+        let n: u32 = invoke(e, &target, "count", args!(e, 1u32)).must("count");
+        rep.check("exec", n == 0, "C08/exec/execute/never-scheduled", || format!("target ran {n} times"));
+        // now a minimum is set (0 the first time round, then raised): scheduling at or above it works
+        invoke::<()>(e, &c, "set_min_delay", args!(e, first)).unwrap();
+        let md: Result<u32, Fail> = invoke(e, &c, "min_delay", args!(e));
+        rep.check("ref", md == Ok(first), "C08/ref/min_delay", || format!("min_delay after set_min_delay({first}): {md:?}"));
+        let a = args!(e, target, Symbol::new(e, "bump"), args!(e, 2u32 + first), zero.clone(), BytesN::from_array(e, &[9u8; 32]), first);
+        let got: Result<BytesN<32>, Fail> = invoke(e, &c, "schedule", a);
+        rep.check("ref", got.is_ok(), "C08/ref/schedule/outcome", || format!("schedule with delay {first} after set_min_delay({first}): {got:?}"));
+        if first == 0 {
+            break;
+        }
+    }
+    rep.count("never_initialised_timelock");
+    rep.end_history();
+}
+
 fn history(cfg: &Cfg, rep: &mut Report, h: u64, steps: usize) {
     let mut rng = Rng::for_history(cfg.seed, "C08", cfg.shard, h);
     rep.begin_history(h);
@@ -275,7 +316,7 @@ fn history(cfg: &Cfg, rep: &mut Report, h: u64, steps: usize) {
 }
 
 pub fn run(cfg: &Cfg, rep: &mut Report) {
-    rep.rule = "Seeded histories of schedule/execute (execute_operation) / mark (set_execute_operation, the entry point self-administered controllers use)/cancel/set_min_delay/ledger moves over 7 operation templates with predecessor links (to done, pending, cancelled, never-scheduled, failing-target ids), delays on {0,min-1,min,min+1,1e6,u32::MAX,MAX-cur,MAX-cur+1}, ledger moved to {ready-1,ready,ready+1}; plus the timelock-controller example's self-administration path (an administrative call consumes the operation): C09's sweep of operation state x payload shape x executor variant and its predecessor cases, reported under C08/controller/. Distinct case = (op, position of cur relative to ready ledger / state, predecessor state, target fn, outcome).".into();
+    rep.rule = "Seeded histories of schedule/execute (execute_operation) / mark (set_execute_operation, the entry point self-administered controllers use)/cancel/set_min_delay/ledger moves over 7 operation templates with predecessor links (to done, pending, cancelled, never-scheduled, failing-target ids), delays on {0,min-1,min,min+1,1e6,u32::MAX,MAX-cur,MAX-cur+1}, ledger moved to {ready-1,ready,ready+1}; a timelock whose minimum delay was never set (nothing can be scheduled until one is, 0 included); plus the timelock-controller example's self-administration path (an administrative call consumes the operation): C09's sweep of operation state x payload shape x executor variant and its predecessor cases, reported under C08/controller/. Distinct case = (op, position of cur relative to ready ledger / state, predecessor state, target fn, outcome).".into();
     let nh = cfg.pick(200u64, 5000);
     let steps = cfg.pick(120usize, 250);
     for k in 0..nh {
@@ -283,6 +324,7 @@ pub fn run(cfg: &Cfg, rep: &mut Report) {
             history(cfg, rep, k, steps);
         }
     }
+    never_initialised(cfg, rep);
     // the same rule when execution means "an administrative call of the controller consumed the
     // operation": the timelock-controller example's own sweep (C09's cases, re-labelled) - operation
     // state x payload shape x executor variant, and operations scheduled with a predecessor
